@@ -5,6 +5,7 @@ use std::io::{BufRead, BufReader, Write};
 use std::panic::{catch_unwind, AssertUnwindSafe};
 
 mod coord;
+mod crash;
 mod hdr;
 mod pexpr;
 mod pgr;
@@ -55,6 +56,7 @@ fn main() {
                 let toks: Vec<&str> = line_c.split_whitespace().collect();
                 let r = catch_unwind(AssertUnwindSafe(|| match mode_s.as_str() {
                     "sql" => sql::run_line(&line_c),
+                    "crash" => crash::run_line(&line_c),
                     "pexpr" => pexpr::run_line(&line_c),
                     "wire" => wire::run(&toks),
                     "val" => val::run(&toks),
